@@ -715,7 +715,7 @@ fn parse_wellformed_type(tokens: &mut Tokens) -> Result<ValueType, Error>
 {
 	let start = tokens.start_location_span();
 	let value_type = parse_inner_type(tokens)?;
-	if value_type.is_wellformed()
+	if value_type.is_wellformed() && !has_array_view_as_element(&value_type)
 	{
 		Ok(value_type)
 	}
@@ -726,6 +726,32 @@ fn parse_wellformed_type(tokens: &mut Tokens) -> Result<ValueType, Error>
 			value_type,
 			location,
 		})
+	}
+}
+
+/// The type `[]T` does not have a compile-time known size, hence compound
+/// types such as `[10][]u8` and `[][]i32` are invalid.
+/// (The typer does use arraylikes of arraylikes for partially inferred types,
+/// which is why this is not part of `ValueType::is_wellformed`.)
+fn has_array_view_as_element(value_type: &ValueType) -> bool
+{
+	match value_type
+	{
+		ValueType::Array { element_type, .. }
+		| ValueType::ArrayWithNamedLength { element_type, .. }
+		| ValueType::Slice { element_type }
+		| ValueType::SlicePointer { element_type }
+		| ValueType::EndlessArray { element_type }
+		| ValueType::Arraylike { element_type } => match element_type.as_ref()
+		{
+			ValueType::Arraylike { .. } => true,
+			element_type => has_array_view_as_element(element_type),
+		},
+		ValueType::Pointer { deref_type } | ValueType::View { deref_type } =>
+		{
+			has_array_view_as_element(deref_type)
+		}
+		_ => false,
 	}
 }
 
